@@ -1,5 +1,10 @@
 
 use crate::frame;
+use crate::MAX_FRAME_WINDOW_SIZE;
+
+// Consecutive entries are at least 32 frame IDs apart, and the sender forgets frames which are
+// more than two transfer windows old, so any entries beyond this count can no longer be used.
+const MAX_ENTRIES: usize = (2 * MAX_FRAME_WINDOW_SIZE / 32) as usize;
 
 struct ReceiveWindow {
     base_id: u32,
@@ -67,6 +72,9 @@ impl FrameAckQueue {
                         last_entry.nonce ^= nonce;
                     }
                 } else {
+                    if self.entries.len() >= MAX_ENTRIES {
+                        self.entries.pop_front();
+                    }
                     self.entries.push_back(frame::AckGroup {
                         base_id: frame_id,
                         bitfield: 0x00000001,
